@@ -10,6 +10,10 @@ import (
 )
 
 func main() {
+	if len(os.Args) >= 2 && os.Args[1] == "c08-child" {
+		c08Child() // uses a private configuration directory (trust store, fonts) instead of none
+		return
+	}
 	api.DisableConfigDir()
 	if len(os.Args) < 2 {
 		h.Die("usage: robust c08|c08-child|c09|c09-child|c10 ...")
@@ -17,6 +21,8 @@ func main() {
 	switch os.Args[1] {
 	case "c10":
 		c10Main()
+	case "c08":
+		c08Main()
 	case "c09":
 		c09Main()
 	case "c09-child":
